@@ -252,7 +252,12 @@ func corrupt(t *verifsim.Tape, f, v string) (string, string) {
 			return v[:14] + "61" + v[16:], "minute61"
 		}
 	case "uuid":
-		switch t.Draw("corr", 4) {
+		switch t.Draw("corr", 6) {
+		case 4:
+			// well-formed, but not an RFC 4122 UUID: variant bits other than 10xx (NCS, Microsoft, reserved)
+			return v[:19] + string("01234567cdefCDEF"[t.Draw("variant", 16)]) + v[20:], "non-rfc4122-variant"
+		case 5:
+			return "00000000-0000-0000-0000-000000000000", "nil-uuid"
 		case 0:
 			return v[:3] + "g" + v[4:], "non-hex"
 		case 1:
